@@ -9,18 +9,20 @@
 (*       byte, equal to p.                                                 *)
 (***************************************************************************)
 EXTENDS Gstuff, Judge
-VARIABLES l, sync, name, cap, m, s
-vars == <<l, sync, name, cap, m, s>>
+VARIABLES l, sync, name, cxv, cap, m, s
+vars == <<l, sync, name, cxv, cap, m, s>>
+\* the context in force is taken from the Reset event (six bytes), so any configured context is judged, not only the shipped ones
+CxOf(v) == [START |-> v[1], STOP |-> v[2], STUB |-> v[3], SSTART |-> v[4], SSTOP |-> v[5], SSTUB |-> v[6]]
 Guard == <<165, 165, 165, 165, 165, 165, 165, 165>>
 
 RecvStepJ(ev) ==
-   LET mo == MonStep(name, m, ev.c, ev.st, ev.out, cap)
-       im == RecvStep(name, s, ev.c, cap)
+   LET mo == MonStepCx(cxv, name = "legacy", m, ev.c, ev.st, ev.out, cap)
+       im == RecvStepCx(cxv, name = "legacy", s, ev.c, cap)
        errs == mo.errs \cup (IF ev.size > cap - 1 \/ ev.size < 0 THEN {"stored_more_than_capacity"} ELSE {})
                        \cup (IF ev.gl # Guard \/ ev.gr # Guard THEN {"guard"} ELSE {})
        drift == (IF im.st # ev.st THEN {"impl_status"} ELSE {})
                 \cup (IF Len(im.s.line) # ev.size THEN {"impl_size"} ELSE {})
-   IN /\ m' = mo.m /\ s' = im.s /\ UNCHANGED <<name, cap>>
+   IN /\ m' = mo.m /\ s' = im.s /\ UNCHANGED <<name, cxv, cap>>
       \* recorded deviations of the legacy receiver are flagged but judging goes on
       /\ IF errs # {} THEN Flag(l, SetToSeq(errs), [want |-> mo.want, model_status |-> im.st])
                             /\ sync' = (errs \subseteq {"delivered_with_crc", "delivery_without_start_marker", "legacy_fragment_delivered"})
@@ -28,7 +30,7 @@ RecvStepJ(ev) ==
          ELSE sync' = TRUE
 
 EncodeJ(ev) ==
-   LET cx == CtxOf(name)
+   LET cx == cxv
        want == Encode(cx, ev.p)
        n == Len(ev.p)
        errs == (IF ev.out # want THEN {"frame"} ELSE {})
@@ -40,16 +42,18 @@ EncodeJ(ev) ==
                \cup (IF ev.npk = 1 /\ ev.delivered # ev.p
                      THEN (IF name = "legacy" /\ ev.delivered = Append(ev.p, CrcOf(ev.p)) THEN {"delivered_with_crc"} ELSE {"roundtrip_content"})
                      ELSE {})
-   IN /\ UNCHANGED <<name, cap, m, s>>
+   IN /\ UNCHANGED <<name, cxv, cap, m, s>>
       /\ IF errs # {} THEN Flag(l, SetToSeq(errs), [frame |-> want]) /\ sync' = (errs = {"delivered_with_crc"}) ELSE sync' = TRUE
 
-TInit == JInit /\ l = 1 /\ sync = FALSE /\ name = "default" /\ cap = 2 /\ m = MonInit /\ s = ImplInit
+TInit == JInit /\ l = 1 /\ sync = FALSE /\ name = "default" /\ cxv = Default /\ cap = 2 /\ m = MonInit /\ s = ImplInit
 TNext ==
    /\ l <= NTrace /\ l' = l + 1 /\ Consumed(l)
    /\ LET ev == TraceLog[l] IN
-      IF ev.e = "Reset" THEN name' = ev.name /\ cap' = ev.cap /\ m' = MonInit /\ s' = ImplInit /\ sync' = TRUE
-      ELSE IF ~sync THEN UNCHANGED <<sync, name, cap, m, s>>
-      ELSE IF ev.e = "Fault" THEN Flag(l, <<"fault">>, [kind |-> ev.kind, where |-> ev.where]) /\ sync' = FALSE /\ UNCHANGED <<name, cap, m, s>>
+      IF ev.e = "Reset" THEN /\ name' = ev.name /\ cxv' = CxOf(ev.cx) /\ cap' = ev.cap /\ m' = MonInit /\ s' = ImplInit
+                                 \* a context outside the domain of the property is not judged (generator mistake, not an alarm)
+                                 /\ sync' = ValidCx(CxOf(ev.cx))
+      ELSE IF ~sync THEN UNCHANGED <<sync, name, cxv, cap, m, s>>
+      ELSE IF ev.e = "Fault" THEN Flag(l, <<"fault">>, [kind |-> ev.kind, where |-> ev.where]) /\ sync' = FALSE /\ UNCHANGED <<name, cxv, cap, m, s>>
       ELSE IF ev.e = "Recv" THEN RecvStepJ(ev)
       ELSE EncodeJ(ev)
 TSpec == TInit /\ [][TNext]_vars
